@@ -345,6 +345,9 @@ func zzDoAdd(t *zzT, p *TransactionPool, abi *zzFakeABI, txs []*blockchain.Trans
 			}
 		}
 	}
+	// a full pool makes room by evicting one transaction of ANY sender (lowest fee priority among the
+	// unprocessable ones, else a processable tail) before the incoming one is inserted
+	poolWasFull := len(p.allTransactions) >= p.config.MaxTransactions
 	added := p.Add(tx)
 	zzMark("add-returned")
 	if !check {
@@ -392,19 +395,36 @@ func zzDoAdd(t *zzT, p *TransactionPool, abi *zzFakeABI, txs []*blockchain.Trans
 					continue
 				}
 				gone++
-				isMax := true
-				for _, n := range preNonces {
-					isMax = t.And(isMax, n <= preNonces[k])
+				if !poolWasFull {
+					isMax := true
+					for _, n := range preNonces {
+						isMax = t.And(isMax, n <= preNonces[k])
+					}
+					t.Assert(t.And(isMax, tx.Nonce <= preNonces[k]), "per-account eviction drops the sender's highest nonce, and only for a lower incoming nonce")
 				}
-				t.Assert(t.And(isMax, tx.Nonce <= preNonces[k]), "per-account eviction drops the sender's highest nonce, and only for a lower incoming nonce")
 				t.Assert(!zzInAll(p, x.Transaction) && zzInQueue(p, x.Transaction) == 0, lbl)
 			}
-			t.Assert(gone == 1, "per-account eviction drops exactly one transaction")
+			if poolWasFull {
+				// the capacity eviction may have hit this sender (then the per-account limit may no longer bite)
+				t.Assert(gone >= 1 && gone <= 2, "per-account eviction on a full pool drops one or two transactions of the sender")
+			} else {
+				t.Assert(gone == 1, "per-account eviction drops exactly one transaction")
+			}
 		} else {
+			changed := 0
 			for j := range txs {
-				if j != i {
-					t.Assert(pre[j] == post[j], "an Add below the limits does not touch other transactions")
+				if j != i && pre[j] != post[j] {
+					changed++
+					t.Assert(!post[j].all && !post[j].list && zzInQueue(p, txs[j]) == 0, "capacity eviction removes the evicted transaction from every index")
 				}
+			}
+			if poolWasFull {
+				t.Assert(changed <= 1, "an Add on a full pool evicts at most one other transaction")
+				if changed == 1 {
+					mark = "capacity-evicted"
+				}
+			} else {
+				t.Assert(changed == 0, "an Add below the limits does not touch other transactions")
 			}
 		}
 	}
